@@ -178,7 +178,7 @@ fn c10() -> Outcome {
         let mut params = v1::Parameters::default();
         for q in &p.parameters { params.entries.insert(q.id, r.value()); }
         let missing = r.chance(1, 5);
-        if missing { let k = p.parameters[0].id; params.entries.remove(&k); }
+        if missing { if r.chance(1, 2) { params.entries.clear(); } else { let k = p.parameters[0].id; params.entries.remove(&k); } }
         match p.clone().with_parameters(params.clone()) {
             Err(e) => if !missing { fail!(n, "with_parameters failed although every parameter was given: {e}") },
             Ok(j) => {
